@@ -200,7 +200,9 @@ def build(log):
                 return False
         else:
             write_coqproject()
-        rc, out, err = run(["make", "-k", "-j%d" % NPROC], cwd=COQ, timeout=3000)
+        # every coqc under a time limit of its own: a proof script that diverges on a regenerated file (or a
+        # half-written one) must fail that file, not hold the build lock for everybody
+        rc, out, err = run(["make", "-k", "-j%d" % NPROC, "COQC=timeout 900 coqc"], cwd=COQ, timeout=3000)
         log["build_rc"] = rc
         if rc != 0:
             log["build_error"] = (out[-1500:] + "\n" + err[-3000:])
